@@ -63,6 +63,16 @@ class Budget:
         return self
 
     def __exit__(self, *exc):
+        # a timer may fire while we are in here (after the first firing it fires every 50 ms): first take the handlers away -
+        # retrying if a Spin lands in between - then stop the timers, then restore.  (Without this a Spin raised inside
+        # __exit__ left the timer armed, and the process died of SIGALRM at interpreter shutdown: exit 142 on two seeds.)
+        while True:
+            try:
+                signal.signal(signal.SIGPROF, signal.SIG_IGN)
+                signal.signal(signal.SIGALRM, signal.SIG_IGN)
+                break
+            except Spin:
+                continue
         signal.setitimer(signal.ITIMER_PROF, 0)
         signal.setitimer(signal.ITIMER_REAL, 0)
         signal.signal(signal.SIGPROF, self._old)
